@@ -62,6 +62,31 @@ gen['status'] = (f"{len(seeds)} independently seeded property-breaking changes a
                  f"While building, the checks found **{n_fixed_lines} genuine defects that were repaired** in {len(commits)} separate unguarded `fix:` commits in /repo (the 1099-test suite passes, unedited, after each) "
                  f"and **{n_findings} that are recorded as known findings** (`/verif/KNOWN_FINDINGS.txt`; §10).")
 
+# measured cost + rules from the per-tier evidence copies
+def ev(pid, tier):
+    f = f'{V}/evidence-by-tier/{pid}.{tier}.json'
+    return json.load(open(f)) if os.path.exists(f) else None
+def num(c):
+    for k in ('evaluations', 'transitions', 'states'):
+        if isinstance(c.get(k), (int, float)):
+            return c[k]
+    return 0
+rows = ["| id | engine level | quick: cases evaluated -> engine time | thorough: cases evaluated -> engine time | distinct outcomes (thorough) |", "|---|---|---|---|---|"]
+rules = []
+for i in range(1, 21):
+    pid = f'C{i:02d}'
+    q, t = ev(pid, 'quick'), ev(pid, 'thorough')
+    def cell(e):
+        if not e:
+            return 'n/a'
+        return f"{num(e['coverage']):,} -> {e.get('process_wall_s', e['wall_s']):.0f} s"
+    rows.append(f"| {pid} | {(t or q or {}).get('level','')} | {cell(q)} | {cell(t)} | {(t or q or {'coverage':{}})['coverage'].get('distinct_nontrivial','')} |")
+    e = t or q
+    if e:
+        rules.append(f"* **{pid}** ({e['tier']} tier) — {e['coverage'].get('rule','')}")
+gen['cost'] = '\n'.join(rows)
+gen['rules'] = '\n'.join(rules)
+
 text = open(f'{V}/DESIGN.md').read()
 for k, body in gen.items():
     pat = re.compile(r'(<!-- GEN:%s -->\n).*?(\n<!-- /GEN:%s -->)' % (k, k), re.S)
